@@ -21,7 +21,7 @@ WORLD_CALLEES = [
     'FileTime :: now', 'std :: time :: SystemTime :: now', 'SystemTime :: now',
     'move_to_back_of_list', 'set_read_only', 'ensure_file_removed', 'ensure_file_touched', 'raw_cache :: ensure_file_touched',
     'collect_cached_files', 'apply_update', 'raw_cache :: prune', 'prune', 'ensure_directory', 'cleanup_temporary_directory',
-    '. ensure_temp_dir', '. cleanup_temp_directory', '. definitely_cleanup', '. maybe_cleanup', '. maintain', '. event', '. weighted_event',
+    '. seek', '. sync_all', '. ensure_temp_dir', '. cleanup_temp_directory', '. definitely_cleanup', '. maybe_cleanup', '. maintain', '. event', '. weighted_event',
 ]
 
 
@@ -1228,12 +1228,11 @@ pub open spec fn write_frame(old: World, fin: World, base: PathV, name: Seq<u8>,
              '!first_byte_ok(str_bytes(name)) ==> r.is_err() && err_kind(err_of(r)) == ErrorKind::InvalidInput && *final(w) == *old(w)'),
             ('C06 C20:at-most-three-calls-one-open', 'final(w).steps <= old(w).steps + 3 && final(w).opens <= old(w).opens + 1 && final(w).published == old(w).published'),
             ('C15 C09:lookup-changes-nothing-but-the-access-time-of-the-entry-found',
-             'final(w).files == old(w).files && final(w).dirs == old(w).dirs && forall|i: InodeId| old(w).inodes.contains_key(i) ==> '
-             '#[trigger] final(w).inodes[i] == (Inode { atime: final(w).inodes[i].atime, ..old(w).inodes[i] }) '
-             '&& (final(w).inodes[i].atime != old(w).inodes[i].atime ==> old(w).files.contains_key(%s) && i == old(w).files[%s])' % (TARGET, TARGET)),
+             'final(w).atime_only(*old(w)) && forall|i: InodeId| #[trigger] old(w).inodes.contains_key(i) ==> '
+             '(final(w).inodes[i].atime != old(w).inodes[i].atime ==> old(w).files.contains_key(%s) && i == old(w).files[%s])' % (TARGET, TARGET)),
             ('C01 C04 C11 C16 C19:hit-is-a-read-only-handle-on-the-file-bound-to-exactly-that-key',
              'r.is_ok() && r.unwrap().is_some() ==> old(w).files.contains_key(%s) && r.unwrap().unwrap().ino() == old(w).files[%s] '
-             '&& !r.unwrap().unwrap().can_write()' % (TARGET, TARGET)),
+             '&& !r.unwrap().unwrap().can_write() && r.unwrap().unwrap().offset() == 0' % (TARGET, TARGET)),
             ('C09:hit-marks-the-entry-as-read-whatever-the-atime-policy',
              'r.is_ok() && r.unwrap().is_some() && final(w).hard_faults == old(w).hard_faults ==> final(w).accessed(%s)' % TARGET),
             ('C05 C04 C11 C18:miss-means-absent',
@@ -1265,9 +1264,8 @@ pub open spec fn write_frame(old: World, fin: World, base: PathV, name: Seq<u8>,
              % (TARGET, TARGET, TARGET, TARGET, TARGET)),
             ('C05 C04 C18:absence-is-reported-as-false', 'r == Ok::<bool, Error>(false) ==> !old(w).files.contains_key(%s) && final(w).same_fs(*old(w))' % TARGET),
             ('C15 C09:touch-changes-nothing-but-the-access-time-of-the-entry-found',
-             'final(w).files == old(w).files && final(w).dirs == old(w).dirs && forall|i: InodeId| old(w).inodes.contains_key(i) ==> '
-             '#[trigger] final(w).inodes[i] == (Inode { atime: final(w).inodes[i].atime, ..old(w).inodes[i] }) '
-             '&& (final(w).inodes[i].atime != old(w).inodes[i].atime ==> old(w).files.contains_key(%s) && i == old(w).files[%s])' % (TARGET, TARGET)),
+             'final(w).atime_only(*old(w)) && forall|i: InodeId| #[trigger] old(w).inodes.contains_key(i) ==> '
+             '(final(w).inodes[i].atime != old(w).inodes[i].atime ==> old(w).files.contains_key(%s) && i == old(w).files[%s])' % (TARGET, TARGET)),
             ('C18 C05:error-is-an-invalid-name-or-a-real-fault',
              'r.is_err() ==> final(w).same_fs(*old(w)) && (!first_byte_ok(str_bytes(name)) || str_bytes(name).contains(0x2fu8) || final(w).hard_faults > old(w).hard_faults)'),
         ])
